@@ -2,10 +2,12 @@
 //! plonky2 code on generated inputs and writes request lines (req.txt), the implementation's
 //! answers (impl.txt) and the input distribution (meta.json).
 mod c01;
+mod c02;
 mod c03;
 mod c04;
 mod c05;
 mod c07;
+mod c08;
 mod c12;
 mod c13;
 mod c14;
@@ -40,8 +42,10 @@ fn main() {
     match prop {
         "c14" => c14::emit(&mut e, seed, thorough),
         "c01" => c01::emit(&mut e, seed, thorough),
+        "c02" => c02::emit(&mut e, seed, thorough),
         "c03" => c03::emit(&mut e, seed, thorough),
         "c04" => c04::emit(&mut e, seed, thorough),
+        "c08" => c08::emit(&mut e, seed, thorough),
         "c07" => c07::emit(&mut e, seed, thorough),
         "c05" => c05::emit(&mut e, seed, thorough),
         "c12" => c12::emit(&mut e, seed, thorough),
